@@ -545,7 +545,7 @@ Qed.
 (* ================================================================== invariant 3: segments opened at a key frame start with it *)
 Definition key_started (c : cfg) (fs : list wframe) : bool :=
   match first_video fs with
-  | Some w => w_key w && is_prefix (key_header c) (w_es w)
+  | Some w => w_key w && is_prefix (key_header_ps (w_sps w) (w_pps w)) (w_es w)
   | None => false
   end.
 
@@ -566,8 +566,12 @@ Proof.
   unfold key_started. rewrite first_video_app. destruct (first_video fs); [auto | discriminate].
 Qed.
 
-Lemma key_started_starts c fs : key_started c fs = true -> starts_with_key c fs = true.
-Proof. unfold key_started, starts_with_key. destruct (first_video fs); [auto | discriminate]. Qed.
+Lemma key_started_starts c fs : key_started c fs = true ->
+  exists w, first_video fs = Some w /\ starts_with_key_ps (w_sps w) (w_pps w) fs = true.
+Proof.
+  unfold key_started, starts_with_key_ps. destruct (first_video fs) as [w|] eqn:E; [|discriminate].
+  intros H. exists w. split; [reflexivity|]. exact H.
+Qed.
 
 Lemma Inv3_flush_frame c w s : Inv3 c s -> Inv3 c (flush_frame w s).
 Proof.
@@ -617,8 +621,9 @@ Proof.
   unfold flush_frame in Hin. rewrite R1 in Hin. unfold curl in Hin. cbn [set_cur pl cur] in Hin.
   destruct Hin as [Hin|[<-|[]]]; [eapply (Inv3_reap_pl c (f_pts f) false s g); eauto|].
   intros _ _. cbn [seg_write s_frames]. unfold key_started. rewrite first_video_app.
-  assert (V : (let w := video_frame c f in w_key w && is_prefix (key_header c) (w_es w)) = true).
-  { cbn zeta. unfold video_frame. cbn [w_key w_es]. rewrite Hk. cbn [andb]. apply is_prefix_app. rewrite (is_key_KK _ Hk). cbn [video_header].
+  assert (V : (let w := video_frame c f in w_key w && is_prefix (key_header_ps (w_sps w) (w_pps w)) (w_es w)) = true).
+  { cbn zeta. unfold video_frame. cbn [w_key w_es w_sps w_pps]. rewrite Hk. cbn [andb]. apply is_prefix_app.
+    change (key_header_ps (c_sps c) (c_pps c)) with (key_header c). rewrite (is_key_KK _ Hk). cbn [video_header].
     exists (f_pay f). reflexivity. }
   cbn zeta in V.
   destruct (cache s) as [ca|]; destruct R3 as [-> _]; cbn [first_video find cache_frame w_pid APID VPID Z.eqb Pos.eqb]; exact V.
@@ -736,6 +741,9 @@ Qed.
 Definition step_st (c : cfg) (s : st) (o : op) : st :=
   match o with OFrame f => write_frame c f s | OClose => close_all s | _ => s end.
 
+Lemma Inv_cfg c c' s : Inv c s -> Inv c' s.
+Proof. intros [A B C D]. constructor; assumption. Qed.
+
 Lemma step_r_st c dtok r o : r_st (fst (step c dtok r o)) = step_st c (r_st r) o.
 Proof.
   unfold step. destruct o; cbn [step_st]; try reflexivity.
@@ -778,8 +786,8 @@ Proof.
   unfold first_video. induction fs as [|w fs IH]; cbn [map find]; [reflexivity|].
   cbn [strip w_pid]. destruct (w_pid w =? VPID); [reflexivity | exact IH].
 Qed.
-Lemma starts_with_key_strip c fs : starts_with_key c (map strip fs) = starts_with_key c fs.
-Proof. unfold starts_with_key. rewrite first_video_strip. destruct (first_video fs); reflexivity. Qed.
+Lemma starts_with_key_strip sps pps fs : starts_with_key_ps sps pps (map strip fs) = starts_with_key_ps sps pps fs.
+Proof. unfold starts_with_key_ps. rewrite first_video_strip. destruct (first_video fs); reflexivity. Qed.
 
 Lemma find_seg_consecutive l : forall n g, consecutive n (map s_seq l) = true -> In g l -> find_seg (s_seq g) l = Some g.
 Proof.
@@ -835,22 +843,26 @@ Proof.
     apply filter_In in Hg as [Hg _]. cbn [fst snd obs_of_frames g_frames negb andb].
     rewrite starts_with_key_strip.
     destruct (s_seq g <=? 1) eqn:E1; [reflexivity|]. cbn [orb].
-    unfold opened_by_audio. rewrite (find_seg_consecutive _ _ _ (i_cons _ I1) Hg).
+    unfold opened_by_audio at 1. rewrite (find_seg_consecutive _ _ _ (i_cons _ I1) Hg).
     destruct (s_aud g) eqn:Ea; [reflexivity|]. cbn [orb].
-    apply key_started_starts. apply I3; [apply in_or_app; left; exact Hg | | exact Ea].
-    destruct (s_hdr g) eqn:Eh; [|reflexivity].
-    pose proof (I3h g ltac:(apply in_or_app; left; exact Hg) Eh). lia.
+    assert (K : key_started c (s_frames g) = true).
+    { apply I3; [apply in_or_app; left; exact Hg | | exact Ea].
+      destruct (s_hdr g) eqn:Eh; [|reflexivity].
+      pose proof (I3h g ltac:(apply in_or_app; left; exact Hg) Eh). lia. }
+    destruct (key_started_starts c _ K) as (w & W1 & W2).
+    unfold model_ps. rewrite (find_seg_consecutive _ _ _ (i_cons _ I1) Hg), W1. cbn [fst snd]. exact W2.
 Qed.
 
-Lemma ok_run_from c dtok : forall ops r, forallb op_wf ops = true -> Inv c (r_st r) ->
-  ok_steps c dtok false (run_from c dtok r ops) (map snd (run_from c dtok r ops)) = true.
+Lemma ok_run_from dtok : forall ops c r, forallb op_wf ops = true -> Inv c (r_st r) ->
+  ok_steps dtok false (run_from c dtok r ops) (map (fun x => snd (snd x)) (run_from c dtok r ops)) = true.
 Proof.
-  induction ops as [|o ops IH]; intros r Hw HI; [reflexivity|].
+  induction ops as [|o ops IH]; intros c r Hw HI; [reflexivity|].
   cbn [forallb] in Hw. apply andb_true_iff in Hw as [H1 H2].
-  cbn [run_from]. destruct (step c dtok r o) as [r' ob] eqn:Hs. cbn [map ok_steps snd].
+  cbn [run_from]. destruct (step c dtok r o) as [r' ob] eqn:Hs. cbn [map ok_steps fst snd].
   pose proof (Inv_step_st c _ o H1 HI) as HI'.
   pose proof (ok_step_model c dtok r o HI') as K. rewrite Hs in K. cbn [snd] in K. rewrite K. cbn [andb].
-  apply IH; [exact H2|]. pose proof (step_r_st c dtok r o) as E. rewrite Hs in E. cbn [fst] in E. rewrite E. exact HI'.
+  apply IH; [exact H2|]. pose proof (step_r_st c dtok r o) as E. rewrite Hs in E. cbn [fst] in E. rewrite E.
+  apply (Inv_cfg c). exact HI'.
 Qed.
 
 Theorem model_passes_oracle c dtok ops : wf c ops = true -> ok c dtok false ops (model c dtok ops) = true.
@@ -1012,13 +1024,14 @@ Proof.
 Qed.
 
 Fixpoint steps (c : cfg) (s : st) (ops : list op) : st :=
-  match ops with [] => s | o :: t => steps c (step_st c s o) t end.
+  match ops with [] => s | o :: t => steps (step_cfg c o) (step_st c s o) t end.
 
-Lemma Inv_steps c ops : forall s, forallb op_wf ops = true -> Inv c s -> Inv c (steps c s ops).
+Lemma Inv_steps ops : forall c s, forallb op_wf ops = true -> Inv c s -> Inv c (steps c s ops).
 Proof.
-  induction ops as [|o ops IH]; intros s Hw HI; [exact HI|].
-  cbn [forallb] in Hw. apply andb_true_iff in Hw as [H1 H2]. cbn [steps]. apply IH; [exact H2|].
-  apply Inv_step_st; assumption.
+  induction ops as [|o ops IH]; intros c s Hw HI; [exact HI|].
+  cbn [forallb] in Hw. apply andb_true_iff in Hw as [H1 H2]. cbn [steps].
+  apply (Inv_cfg (step_cfg c o)). apply IH; [exact H2|].
+  apply (Inv_cfg c). apply Inv_step_st; assumption.
 Qed.
 
 Lemma entries_ok_all c tok target live l : forall n e, entries_ok c tok n target live l = true -> In e l ->
@@ -1044,7 +1057,7 @@ Theorem playlist_window c ops tok :
     view_ok c tok (live_seqs s) v = true /\
     (forall e, In e (v_entries v) -> e_ms e <= v_target v * 1000 /\ e_tok e = tok).
 Proof.
-  intros Hw s. pose proof (Inv_steps c ops (init c) Hw (Inv_init c)) as HI. fold s in HI.
+  intros Hw s. pose proof (Inv_steps ops c (init c) Hw (Inv_init c)) as HI. fold s in HI.
   destruct HI as [I1 I2 I3 I3h].
   split; [apply (i_len _ I1)|]. split; [apply (i_suffix _ I1)|]. split.
   - intros Hc H3. pose proof (i_recent _ I1 Hc) as L. unfold m3u8.
@@ -1069,7 +1082,7 @@ Theorem storage_bounded c ops :
   (length (pl s) <= 3)%nat /\ (length (file_seqs c s) <= 4)%nat /\
   (forall seq, fetch c seq s <> None -> In seq (live_seqs s)).
 Proof.
-  intros Hw s. pose proof (Inv_steps c ops (init c) Hw (Inv_init c)) as HI. fold s in HI.
+  intros Hw s. pose proof (Inv_steps ops c (init c) Hw (Inv_init c)) as HI. fold s in HI.
   pose proof (i_len _ (inv1 _ _ HI)) as L. split; [exact L|]. split.
   - unfold file_seqs. destruct (c_mem c); [cbn; lia|].
     rewrite sort_z_length, app_length. unfold live_seqs. rewrite map_length. destruct (cur s); cbn [length]; lia.
@@ -1083,20 +1096,74 @@ Theorem short_segment_unreachable c fs : 1 <= c_frag c -> dropped (feed c fs (in
 Proof. intros H. apply (segments_partition c fs H). Qed.
 
 (* every listed segment not opened by the audio-driven reap (and not number 1) starts its video with a key frame
-   whose elementary stream begins with AUD, SPS, PPS and a start code *)
+   whose elementary stream begins with AUD, SPS, PPS and a start code — the SPS/PPS being the stream's parameter
+   sets that were current when that frame was packetized ([w_sps]/[w_pps]: [video_frame] records the pair of the
+   configuration in force, and [steps] puts every OSetPs in force for the operations after it) *)
 Theorem segment_starts_with_key c ops g :
   forallb op_wf ops = true ->
   let s := steps c (init c) ops in
   In g (pl s) -> s_seq g <> 1 -> s_aud g = false ->
-  exists w, first_video (s_frames g) = Some w /\ w_key w = true /\ is_prefix (key_header c) (w_es w) = true.
+  exists w, first_video (s_frames g) = Some w /\ w_key w = true /\
+            is_prefix (key_header_ps (w_sps w) (w_pps w)) (w_es w) = true.
 Proof.
-  intros Hw s Hin Hs Ha. pose proof (Inv_steps c ops (init c) Hw (Inv_init c)) as HI. fold s in HI.
+  intros Hw s Hin Hs Ha. pose proof (Inv_steps ops c (init c) Hw (Inv_init c)) as HI. fold s in HI.
   destruct HI as [I1 I2 I3 I3h].
   assert (Hh : s_hdr g = false).
   { destruct (s_hdr g) eqn:E; [|reflexivity]. exfalso. apply Hs. apply I3h; [apply in_or_app; left; exact Hin | exact E]. }
   pose proof (I3 g ltac:(apply in_or_app; left; exact Hin) Hh Ha) as K.
   unfold key_started in K. destruct (first_video (s_frames g)) as [w|]; [|discriminate].
   apply andb_true_iff in K as [K1 K2]. exists w. repeat split; assumption.
+Qed.
+
+(* the parameter sets recorded in a written video frame are those of the configuration it was packetized under,
+   and a frame operation adds no other video frame *)
+Lemma video_frame_ps c f : w_sps (video_frame c f) = c_sps c /\ w_pps (video_frame c f) = c_pps c.
+Proof. split; reflexivity. Qed.
+
+Definition ps_from (c : cfg) (s0 s : st) : Prop :=
+  forall g w, In g (pl s ++ curl s) -> In w (s_frames g) -> w_pid w = VPID ->
+    (exists g0, In g0 (pl s0 ++ curl s0) /\ In w (s_frames g0)) \/ (w_sps w = c_sps c /\ w_pps w = c_pps c).
+
+Lemma ps_from_flush_frame c s0 w0 s : (w_pid w0 = VPID -> w_sps w0 = c_sps c /\ w_pps w0 = c_pps c) ->
+  ps_from c s0 s -> ps_from c s0 (flush_frame w0 s).
+Proof.
+  intros Hw H. unfold flush_frame. destruct (cur s) as [g1|] eqn:Hg; [|exact H].
+  intros g w Hin Hwi Hp. unfold curl in Hin. cbn [set_cur pl cur] in Hin. unfold ps_from, curl in H. rewrite Hg in H.
+  apply in_app_or in Hin. destruct Hin as [Hin|[<-|[]]].
+  - eapply H; eauto. apply in_or_app. left. exact Hin.
+  - cbn [seg_write s_frames] in Hwi. apply in_app_or in Hwi. destruct Hwi as [Hwi|[<-|[]]].
+    + eapply (H g1); eauto. apply in_or_app. right. left. reflexivity.
+    + right. apply Hw. exact Hp.
+Qed.
+
+Lemma ps_from_flush_cache c s0 s : ps_from c s0 s -> ps_from c s0 (flush_cache s).
+Proof.
+  intros H. unfold flush_cache. destruct (cache s) as [a|]; [|exact H].
+  apply (ps_from_flush_frame c s0 (cache_frame a) s); [|exact H]. cbn. unfold APID, VPID. discriminate.
+Qed.
+
+Lemma ps_from_reap c start a s0 s g : cur s = Some g -> ps_from c s0 s -> ps_from c s0 (reap c start a s).
+Proof.
+  intros Hc H x w Hin Hwi Hp.
+  pose proof (reap_spec c start a s g Hc) as R. cbn zeta in R.
+  destruct R as (s1 & g' & CA & _ & R1 & _ & _ & _ & _ & R3 & _ & _ & R5 & _).
+  unfold curl in Hin. rewrite R1, R5 in Hin. apply in_app_or in Hin. destruct Hin as [Hin|[<-|[]]].
+  - destruct (closed_as_pl_in _ _ _ _ CA Hin) as [Hx| ->]; eapply H; eauto; apply in_or_app; [left; exact Hx|].
+    right. unfold curl. rewrite Hc. left. reflexivity.
+  - destruct (cache s) as [ca|]; destruct R3 as [E _]; rewrite E in Hwi; [|destruct Hwi].
+    destruct Hwi as [<-|[]]. cbn in Hp. unfold APID, VPID in Hp. discriminate.
+Qed.
+
+Theorem write_frame_ps c f s : ps_from c s (write_frame c f s).
+Proof.
+  apply (write_frame_preserves (ps_from c s)).
+  - intros s1 o H. exact H.
+  - intros s1 b n H. exact H.
+  - apply ps_from_flush_cache.
+  - intros s1 g H Hg _. eapply ps_from_reap; eauto.
+  - intros s1 g H Hg _. apply ps_from_flush_frame; [intros _; apply video_frame_ps | exact H].
+  - intros s1 g H Hg _ _. apply ps_from_flush_frame; [intros _; apply video_frame_ps|]. eapply ps_from_reap; eauto.
+  - intros g w Hin Hw _. left. exists g. split; assumption.
 Qed.
 
 (* a video-only stream never takes the audio path *)
